@@ -86,3 +86,33 @@ func VP_C12_Pieces2() {
 	vp.Assert(len(visits)+len(rejected) == ex*ey, "no cell outside the block is visited")
 	vp.Reach("end")
 }
+
+// VP_C12_BlockBounds2: the rectangle handed to region filters encloses every
+// lattice point of the block (and, for epsilon > 0, strictly), so a
+// conservative filter sees everything the block can produce.
+func VP_C12_BlockBounds2() {
+	n := vp.Param("n")
+	sp := &squareSpacer{}
+	for i := 0; i < n; i++ {
+		sp.Xs = append(sp.Xs, vp.Float64("x"))
+		sp.Ys = append(sp.Ys, vp.Float64("y"))
+		if i > 0 {
+			vp.Assume(vp.And(sp.Xs[i-1] < sp.Xs[i], sp.Ys[i-1] < sp.Ys[i]))
+		}
+	}
+	b := msBlock{spacer: sp}
+	for i := 0; i < 2; i++ {
+		b.min[i] = vp.Int("min", 0, n-1)
+		b.max[i] = vp.Int("max", 0, n-1)
+		vp.Assume(b.min[i] < b.max[i])
+	}
+	eps := vp.Float64("eps")
+	vp.Assume(eps >= 0)
+	r := b.Bounds(eps)
+	// any lattice point of the block
+	ix, iy := vp.Int("ix", 0, n-1), vp.Int("iy", 0, n-1)
+	vp.Assume(vp.All(ix >= b.min[0], ix <= b.max[0], iy >= b.min[1], iy <= b.max[1]))
+	px, py := sp.Xs[ix], sp.Ys[iy]
+	vp.Assert(vp.All(r.MinVal.X <= px, px <= r.MaxVal.X, r.MinVal.Y <= py, py <= r.MaxVal.Y), "block bounds enclose every lattice point of the block")
+	vp.Reach("end")
+}
